@@ -486,7 +486,11 @@ func c06Units(r *core.Run, root []*ssa.Function, ro *muxRoles) {
 			if !rebasedRead[ac.F.Struct] {
 				// decide after all reads are seen: defer by re-checking below
 			}
-			r.Check(good, "R2", fn, "write("+label(ac.F)+")=tokenIndex-mountIndex", p.InstrPos(st), "stored relative to the mount point", "index written as "+valDesc(st.Val)+" (a raw pattern token index) although it is read against mount-rebased tokens: a handler registered through a parent mux across a mount point gets the wrong token or an index-out-of-range panic")
+			wfn := fn
+			if ac.Fn == ro.parseGroup {
+				wfn = "<group-parser>" // role label: keeps the known finding's key stable under renaming
+			}
+			r.Check(good, "R2", wfn, "write("+label(ac.F)+")=tokenIndex-mountIndex", p.InstrPos(st), "stored relative to the mount point", "index written as "+valDesc(st.Val)+" (a raw pattern token index) although it is read against mount-rebased tokens: a handler registered through a parent mux across a mount point gets the wrong token or an index-out-of-range panic")
 		}
 	}
 }
